@@ -1,6 +1,7 @@
 package c19
 
 import (
+	"bytes"
 	"fmt"
 	"io"
 	"runtime"
@@ -40,8 +41,8 @@ func TestSelf(t *testing.T) {
 	if err != nil {
 		fail("fixtures: %v", err)
 	}
-	if len(fm) < 8 {
-		fail("expected index.caibx, 4 catar files and 3 session streams, have %d fixtures", len(fm))
+	if len(fm) < 10 {
+		fail("expected index.caibx, 4 catar files, 2 single-file archives and 3 session streams, have %d fixtures", len(fm))
 	}
 	// every fixture is accepted by every entry point it is meant for, with no violation
 	for _, name := range fixtureNames() {
@@ -64,6 +65,15 @@ func TestSelf(t *testing.T) {
 			}
 			if r.Panic != nil || r.Unsafe || r.Alloc > allocBound(len(f.Data), r.Exempt) {
 				fail("fixture %s on %s: panic=%v withheld=%v alloc=%d", name, target, r.Panic, r.Unsafe, r.Alloc)
+			}
+			// ... whatever kind of reader it comes from and whatever the caller does with payloads
+			if sourceTarget(target) {
+				for _, co := range combosFor(target) {
+					rv := runTargetOpt(target, f.Data, unsafeLo, co)
+					if target != "protomsg" && rv.Err != nil || rv.Panic != nil || rv.Unsafe || rv.Calls != r.Calls {
+						fail("fixture %s on %s with source %s drain %q: err=%v panic=%v withheld=%v results=%d (plain: %d)", name, target, co.Src, co.Drain, rv.Err, rv.Panic, rv.Unsafe, rv.Calls, r.Calls)
+					}
+				}
 			}
 		}
 	}
@@ -99,6 +109,18 @@ func TestSelf(t *testing.T) {
 	}
 	if u, _ := prescan(append(le(48, domFormat.byName["CaFormatIndex"].val, 0, 0, 0, 0), le(1<<35, 7)...), unsafeLo, 0, 48); !u {
 		fail("prescan misses an unsafe size at offset 48")
+	}
+	// seekGuard behaves like bytes.Reader: seeking beyond the end succeeds, reading there is EOF
+	{
+		sg := seekGuard{newGuard([]byte("abcdef"), unsafeLo, domFormat)}
+		br := bytes.NewReader([]byte("abcdef"))
+		p1, e1 := sg.Seek(100, io.SeekCurrent)
+		p2, e2 := br.Seek(100, io.SeekCurrent)
+		_, r1 := sg.Read(make([]byte, 4))
+		_, r2 := br.Read(make([]byte, 4))
+		if p1 != p2 || (e1 == nil) != (e2 == nil) || r1 != r2 {
+			fail("seekGuard differs from bytes.Reader: %d/%v/%v vs %d/%v/%v", p1, e1, r1, p2, e2, r2)
+		}
 	}
 	// guard in action: a filename announcing 2^40 bytes never reaches make()
 	r := runTarget("format", le(1<<40, domFormat.byName["CaFormatFilename"].val), unsafeLo)
